@@ -35,7 +35,10 @@ CONSTANTS Actions,          \* action type names
           Margin,           \* [Actions -> blocks]: signing context ends at expiry - Margin
           StartOffset,      \* [Actions -> blocks]: signing start block - action start block
           PostKind,         \* [Actions -> {"broadcast", "claim"}]
-          BroadcastSeconds, \* [Actions -> seconds]: broadcast timeout + one check delay
+          BroadcastTimeout, \* [Actions -> seconds]: broadcastTimeout installed by the action constructor
+          CheckDelay,       \* [Actions -> seconds]: broadcastCheckDelay installed by the action constructor
+          BroadcastBounded, \* TRUE: one context.WithTimeout spans the whole broadcast loop (wallet.go);
+                            \* FALSE: hazard variant, nothing ends the loop while the transaction stays unknown
           ClaimEndMargin,   \* heartbeat: claim context ends at expiry - ClaimEndMargin
           AttemptsLimit,    \* signingAttemptsLimit
           AnnounceDelay, AnnounceActive, ProtocolBlocks, CoolDown,  \* signing_loop.go
@@ -51,9 +54,11 @@ CONSTANTS Actions,          \* action type names
 VARIABLES act, start, phase, now, attempt,
           msg,      \* index of the message of the batch being signed
           mstart,   \* start block handed to signingExecutor.sign for that message
-          lastAnn   \* block of the latest readiness announcement (attempt start)
+          lastAnn,  \* block of the latest readiness announcement (attempt start)
+          bstart,   \* block at which broadcastTransaction was entered
+          bel       \* seconds spent in broadcastTransaction so far
 
-vars == <<act, start, phase, now, attempt, msg, mstart, lastAnn>>
+vars == <<act, start, phase, now, attempt, msg, mstart, lastAnn, bstart, bel>>
 
 Expiry(a, s)          == s + Validity[a]
 SigningStart(a, s)    == s + StartOffset[a]
@@ -61,12 +66,13 @@ SigningDeadline(a, s) == Expiry(a, s) - Margin[a]
 LoopBlocks            == AttemptsLimit * AttemptMaxBlocks
 AttemptStart(a, s, k) == SigningStart(a, s) + (k - 1) * AttemptMaxBlocks
 CeilDiv(x, y)         == (x + y - 1) \div y
-PostBlocks(a)         == CeilDiv(BroadcastSeconds[a], BlockSeconds)
+PostBlocks(a)         == CeilDiv(BroadcastTimeout[a] + CheckDelay[a], BlockSeconds)
 
 Init ==
     /\ act \in Actions /\ start \in Starts
     /\ phase = "proposed" /\ now = start /\ attempt = 0
     /\ msg = 0 /\ mstart = 0 /\ lastAnn = 0
+    /\ bstart = 0 /\ bel = 0
 
 Deadline == SigningDeadline(act, start)
 
@@ -95,7 +101,7 @@ BeginSigning ==
     /\ phase = "proposed"
     /\ msg' = 1 /\ mstart' = SigningStart(act, start)
     /\ Proceed(SigningStart(act, start), 1)
-    /\ UNCHANGED <<act, start>>
+    /\ UNCHANGED <<act, start, bstart, bel>>
 
 (* signingRetryLoop: attempt `attempt` fails (announcement failed, members  *)
 (* not ready, protocol error or done check timed out); the next attempt     *)
@@ -103,14 +109,14 @@ BeginSigning ==
 AttemptFails ==
     /\ phase = "signing" /\ attempt < AttemptsLimit
     /\ Proceed(mstart, attempt + 1)
-    /\ UNCHANGED <<act, start, msg, mstart>>
+    /\ UNCHANGED <<act, start, msg, mstart, bstart, bel>>
 
 (* the last attempt of the loop fails: the loop waits for an attempt that   *)
 (* never starts; sign returns an error when the loop context ends           *)
 LoopExhausted ==
     /\ phase = "signing" /\ attempt = AttemptsLimit
     /\ Proceed(mstart, attempt + 1)
-    /\ UNCHANGED <<act, start, msg, mstart>>
+    /\ UNCHANGED <<act, start, msg, mstart, bstart, bel>>
 
 (* the attempt succeeds -- unless the loop's context ends first; the latest *)
 (* block at which members agree on the signature is the attempt's timeout   *)
@@ -122,7 +128,7 @@ AttemptSucceeds ==
           IF e <= LoopLimit(mstart)
              THEN now' = e /\ phase' = "msg-signed"
              ELSE now' = LoopLimit(mstart) /\ phase' = GiveUpPhase(mstart)
-    /\ UNCHANGED <<act, start, attempt, msg, mstart, lastAnn>>
+    /\ UNCHANGED <<act, start, attempt, msg, mstart, lastAnn, bstart, bel>>
 
 (* signBatch: the next message is signed starting Interlude blocks after    *)
 (* the previous one ended                                                   *)
@@ -130,33 +136,72 @@ NextMessage ==
     /\ phase = "msg-signed" /\ msg < MaxMessages
     /\ msg' = msg + 1 /\ mstart' = now + Interlude
     /\ Proceed(now + Interlude, 1)
-    /\ UNCHANGED <<act, start>>
+    /\ UNCHANGED <<act, start, bstart, bel>>
 
 (* the batch is complete *)
 BatchSigned ==
     /\ phase = "msg-signed"
     /\ phase' = "signed"
-    /\ UNCHANGED <<act, start, now, attempt, msg, mstart, lastAnn>>
+    /\ UNCHANGED <<act, start, now, attempt, msg, mstart, lastAnn, bstart, bel>>
 
 (* a long batch may complete as late as the deadline itself *)
 SignedAtDeadline ==
     /\ phase = "msg-signed"
     /\ now' = Deadline /\ now' >= now
     /\ phase' = "signed"
-    /\ UNCHANGED <<act, start, attempt, msg, mstart, lastAnn>>
+    /\ UNCHANGED <<act, start, attempt, msg, mstart, lastAnn, bstart, bel>>
 
-(* post-signing step, worst case *)
+(* heartbeat: the inactivity claim runs under a context cancelled at        *)
+(* expiry - ClaimEndMargin (worst case: it takes until then)               *)
 PostSigning ==
-    /\ phase = "signed"
+    /\ phase = "signed" /\ PostKind[act] = "claim"
     /\ phase' = "finished"
-    /\ now' = IF PostKind[act] = "broadcast"
-                 THEN now + PostBlocks(act)
-                 ELSE IF now > Expiry(act, start) - ClaimEndMargin THEN now
-                      ELSE Expiry(act, start) - ClaimEndMargin
-    /\ UNCHANGED <<act, start, attempt, msg, mstart, lastAnn>>
+    /\ now' = IF now > Expiry(act, start) - ClaimEndMargin THEN now
+              ELSE Expiry(act, start) - ClaimEndMargin
+    /\ UNCHANGED <<act, start, attempt, msg, mstart, lastAnn, bstart, bel>>
+
+(* wallet.go broadcastTransaction: one context with BroadcastTimeout spans  *)
+(* the loop; every iteration broadcasts, waits CheckDelay (or until the     *)
+(* context ends) and asks the Bitcoin chain whether the transaction is      *)
+(* known                                                                    *)
+BeginBroadcast ==
+    /\ phase = "signed" /\ PostKind[act] = "broadcast"
+    /\ phase' = "broadcasting" /\ bstart' = now /\ bel' = 0
+    /\ UNCHANGED <<act, start, now, attempt, msg, mstart, lastAnn>>
+
+BroadcastClock(e) == bstart + CeilDiv(e, BlockSeconds)
+
+(* the transaction is still unknown after the check delay: next iteration *)
+BroadcastUnknown ==
+    /\ phase = "broadcasting"
+    /\ IF BroadcastBounded THEN bel + CheckDelay[act] < BroadcastTimeout[act]
+                           ELSE bel < 3 * BroadcastTimeout[act]   \* (exploration bound of the hazard variant)
+    /\ bel' = bel + CheckDelay[act]
+    /\ now' = BroadcastClock(bel')
+    /\ UNCHANGED <<act, start, phase, attempt, msg, mstart, lastAnn, bstart>>
+
+(* the transaction is known after the check delay: success *)
+BroadcastKnown ==
+    /\ phase = "broadcasting"
+    /\ (BroadcastBounded => bel + CheckDelay[act] < BroadcastTimeout[act])
+    /\ bel' = bel + CheckDelay[act]
+    /\ now' = BroadcastClock(bel')
+    /\ phase' = "finished"
+    /\ UNCHANGED <<act, start, attempt, msg, mstart, lastAnn, bstart>>
+
+(* the broadcast context ends (at the loop head or during the check delay): *)
+(* "broadcast timeout exceeded"                                             *)
+BroadcastTimesOut ==
+    /\ phase = "broadcasting" /\ BroadcastBounded
+    /\ bel + CheckDelay[act] >= BroadcastTimeout[act]
+    /\ bel' = BroadcastTimeout[act]
+    /\ now' = BroadcastClock(bel')
+    /\ phase' = "finished"
+    /\ UNCHANGED <<act, start, attempt, msg, mstart, lastAnn, bstart>>
 
 Next == BeginSigning \/ AttemptFails \/ LoopExhausted \/ AttemptSucceeds \/ NextMessage \/ BatchSigned
-        \/ SignedAtDeadline \/ PostSigning
+        \/ SignedAtDeadline \/ PostSigning \/ BeginBroadcast \/ BroadcastUnknown \/ BroadcastKnown
+        \/ BroadcastTimesOut
 
 Spec == Init /\ [][Next]_vars
 
@@ -165,7 +210,7 @@ Spec == Init /\ [][Next]_vars
 
 TypeOK ==
     /\ act \in Actions /\ start \in Starts
-    /\ phase \in {"proposed", "signing", "msg-signed", "signed", "failed", "expired", "finished"}
+    /\ phase \in {"proposed", "signing", "msg-signed", "signed", "failed", "expired", "broadcasting", "finished"}
     /\ attempt \in 0..AttemptsLimit
     /\ msg \in 0..MaxMessages
 
@@ -205,7 +250,12 @@ AttemptWindow ==
 
 (* post-signing steps end before expiry at the nominal block time *)
 PostEndsBeforeExpiry ==
-    /\ (phase = "finished" => now <= Expiry(act, start))
+    /\ (phase \in {"broadcasting", "finished"} => now <= Expiry(act, start))
     /\ (PostKind[act] = "broadcast" => PostBlocks(act) <= Margin[act])
     /\ (PostKind[act] = "claim" => ClaimEndMargin <= Margin[act])
+
+(* the broadcast loop ends: it never runs longer than its timeout (the      *)
+(* OBSERVED end of the post-signing step is what PostEndsBeforeExpiry uses) *)
+BroadcastLoopBounded ==
+    phase \in {"broadcasting", "finished"} => bel <= BroadcastTimeout[act]
 =============================================================================
